@@ -1,1 +1,547 @@
-fn main() {}
+//! In-process monitors over the crate-private text layer of the server (feature `verif`):
+//!   C13 document store tracks an LSP client document through edits (Vfs + convert)
+//!   C14 offset <-> (line, UTF-16 column) conversions agree with an LSP client
+//!   C19 semantic-token encoding decodes to exactly the highlighted identifiers
+
+use glas::verif::{self, LineMap, Vfs};
+use ide::{FileId, HlRange, HlTag, VfsPath};
+use lsp_types::{Position, Range};
+use serde_json::json;
+use std::collections::BTreeSet;
+use std::time::Instant;
+use text_size::{TextRange, TextSize};
+use vh::gen::{self, GenCfg};
+use vh::lspmodel::{self, AbsToken, Doc, Pos};
+use vh::panicmon::{self, Outcome};
+use vh::prog::{Bind, SymKind, Trivia};
+use vh::report::{truncate_str, Args, Report};
+use vh::rng::{fnv, Rng};
+
+fn fresh_vfs(text: &str) -> (Vfs, FileId) {
+    let mut vfs = Vfs::new();
+    let f = vfs.set_path_content(VfsPath::new("/ws/pkg/src/doc.gleam"), text.to_string());
+    (vfs, f)
+}
+
+/// All strings of `len` symbols over `alpha`, restricted to this shard.
+fn for_each_doc(alpha: &[&str], max_len: usize, shard: usize, nshards: usize, mut f: impl FnMut(&str)) {
+    let mut k = 0usize;
+    let mut buf = String::new();
+    for len in 0..=max_len {
+        let total = alpha.len().pow(len as u32);
+        for n in 0..total {
+            k += 1;
+            if k % nshards != shard {
+                continue;
+            }
+            buf.clear();
+            let mut r = n;
+            for _ in 0..len {
+                buf.push_str(alpha[r % alpha.len()]);
+                r /= alpha.len();
+            }
+            f(&buf);
+        }
+    }
+}
+
+fn random_doc(r: &mut Rng, max_len: usize, crlf: bool) -> String {
+    let alpha: &[&str] = if crlf { &["a", "b", " ", "\n", "\r\n", "ß", "ℝ", "💣", "fn", "(", ")", "x1"] } else { &["a", "b", " ", "\n", "ß", "ℝ", "💣", "fn", "(", ")", "x1"] };
+    let n = r.below(max_len.max(1));
+    let mut s = String::new();
+    while s.len() < n {
+        // long lines and dense astral runs now and then
+        if r.chance(1, 12) {
+            let piece = *r.pick(alpha);
+            for _ in 0..r.range(2, 60) {
+                s.push_str(piece);
+            }
+        } else {
+            s.push_str(*r.pick(alpha));
+        }
+    }
+    s
+}
+
+// ----------------------------------------------------------------------------------
+// C14
+
+fn check_c14_doc(rep: &mut Report, text: &str, phase: &str) {
+    debug_assert!(!text.contains('\r'));
+    rep.evaluations += 1;
+    let doc = Doc::new(text);
+    let (vfs, f) = fresh_vfs(text);
+    let lm: std::sync::Arc<LineMap> = vfs.line_map_for_file(f);
+    let replay = json!({"kind":"doc","text":text,"phase":phase});
+    let bounds: Vec<usize> = text.char_indices().map(|(i, _)| i).chain(std::iter::once(text.len())).collect();
+    let mut prev: Option<(u32, u32)> = None;
+    let mut lcs: Vec<(u32, u32)> = Vec::with_capacity(bounds.len());
+    for &o in &bounds {
+        let got = match panicmon::guard(|| lm.line_col_for_pos(TextSize::from(o as u32))) {
+            Outcome::Ok(v) => v,
+            Outcome::Panicked(i) => {
+                rep.violate(format!("linemap-{}", i.signature()), format!("line_col_for_pos({o}) panicked"), replay.clone());
+                return;
+            }
+        };
+        let want = doc.position_of(o);
+        if got != (want.line, want.col) {
+            rep.violate("line-col-differs-from-client", format!("offset {o}: server says {got:?}, an LSP client computes ({}, {})", want.line, want.col), replay.clone());
+            return;
+        }
+        let back = match panicmon::guard(|| lm.pos_for_line_col(got.0, got.1)) {
+            Outcome::Ok(v) => usize::from(v),
+            Outcome::Panicked(i) => {
+                rep.violate(format!("linemap-{}", i.signature()), format!("pos_for_line_col{got:?} panicked"), replay.clone());
+                return;
+            }
+        };
+        if back != o {
+            rep.violate("round-trip-not-identity", format!("offset {o} -> {got:?} -> {back}"), replay.clone());
+            return;
+        }
+        if let Some(p) = prev {
+            if !(p < got) {
+                rep.violate("conversion-not-strictly-monotone", format!("offset {o}: {got:?} does not follow {p:?}"), replay.clone());
+                return;
+            }
+        }
+        // from_pos on the model's position
+        match verif::from_pos(&lm, Position::new(want.line, want.col)) {
+            Ok(p) if usize::from(p) == o => {}
+            other => {
+                rep.violate("from-pos-differs", format!("from_pos({want:?}) = {other:?}, expected {o}"), replay.clone());
+                return;
+            }
+        }
+        prev = Some(got);
+        lcs.push(got);
+    }
+    // ranges: to_range selects exactly text[o1..o2] in the client document
+    let pair_cap = 40usize;
+    let step = (bounds.len() / pair_cap).max(1);
+    for (i, &o1) in bounds.iter().enumerate().step_by(step) {
+        for (j, &o2) in bounds.iter().enumerate().skip(i).step_by(step) {
+            let r = verif::to_range(&lm, TextRange::new(TextSize::from(o1 as u32), TextSize::from(o2 as u32)));
+            let s = doc.offset_of(Pos { line: r.start.line, col: r.start.character });
+            let e = doc.offset_of(Pos { line: r.end.line, col: r.end.character });
+            if s != Ok(o1) || e != Ok(o2) {
+                rep.violate("to-range-selects-other-text", format!("byte range {o1}..{o2} -> {r:?} -> client offsets {s:?}..{e:?}"), replay.clone());
+                return;
+            }
+            rep.count("ranges_checked", 1);
+            let _ = (i, j);
+        }
+    }
+    // line table facts used by semantic tokens / formatting
+    let lines = doc.lines();
+    if lm.last_line() as usize != lines.len() - 1 {
+        rep.violate("last-line-differs", format!("last_line {} vs {} lines", lm.last_line(), lines.len()), replay.clone());
+        return;
+    }
+    for (li, &(a, b)) in lines.iter().enumerate() {
+        let want = lspmodel::utf16_len(&text[a..b]);
+        let got = lm.end_col_for_line(li as u32);
+        if got != want {
+            rep.violate("end-col-for-line-differs", format!("line {li}: {got} vs {want}"), replay.clone());
+            return;
+        }
+    }
+    if text.contains('\n') && text.chars().any(|c| c.len_utf8() > 1) {
+        rep.nontrivial(fnv(text.as_bytes()));
+    }
+    rep.see("char_widths_seen", format!("{:?}", text.chars().map(|c| c.len_utf8()).collect::<BTreeSet<_>>()));
+}
+
+fn run_c14(args: &Args) -> Report {
+    let mut rep = Report::new("C14", args.shard);
+    let max_len = if args.thorough() { 7 } else { 6 };
+    let mut n = 0u64;
+    for_each_doc(&["a", "\n", "ß", "ℝ", "💣"], max_len, args.shard, args.nshards, |d| {
+        check_c14_doc(&mut rep, d, "exhaustive");
+        n += 1;
+    });
+    rep.count(&format!("docs[exhaustive len<={max_len} over {{a,LF,2B,3B,4B}}]"), n);
+    rep.exhaustive = Some(true);
+    let mut r = Rng::derive(args.seed, args.shard as u64, 14);
+    let t0 = Instant::now();
+    let mut m = 0u64;
+    while t0.elapsed().as_secs_f64() < args.budget_s {
+        let cap = *r.pick(&[16usize, 64, 256, 2048, 65536]);
+        let d = random_doc(&mut r, cap, false);
+        check_c14_doc(&mut rep, &d, "random");
+        if rep.samples.len() < 4 && m % 97 == 0 {
+            rep.sample(json!({"phase":"random","text":truncate_str(&d, 120)}));
+        }
+        m += 1;
+    }
+    rep.count("docs[random up to 64 KiB]", m);
+    rep
+}
+
+// ----------------------------------------------------------------------------------
+// C13 (in-process)
+
+const REPLACEMENTS: &[&str] = &["", "a", "\n", "\r\n", "ß", "💣", "a\r\nß"];
+
+/// Mirror of the per-change body of `Server::on_did_change`.
+fn server_apply(vfs: &mut Vfs, f: FileId, range: Option<(Pos, Pos)>, text: &str) -> Result<(), String> {
+    let del = match range {
+        None => None,
+        Some((s, e)) => Some(verif::from_range(vfs, f, Range::new(Position::new(s.line, s.col), Position::new(e.line, e.col)))?),
+    };
+    vfs.change_file_content(f, del, text).map_err(|e| format!("{e:#}"))
+}
+
+fn check_vfs_state(rep: &mut Report, vfs: &Vfs, f: FileId, model: &Doc, replay: &serde_json::Value, what: &str) -> bool {
+    let got = vfs.content_for_file(f);
+    let want = model.server_view();
+    if &*got != want.as_str() {
+        rep.violate(
+            format!("doc-desync:{what}"),
+            format!("server text {:?} vs editor text without CR {:?}", truncate_str(&got, 200), truncate_str(&want, 200)),
+            replay.clone(),
+        );
+        return false;
+    }
+    let (fv, ff) = fresh_vfs(&want);
+    if *vfs.line_map_for_file(f) != *fv.line_map_for_file(ff) {
+        rep.violate(format!("stale-line-map:{what}"), "the stored line map differs from one built from scratch for the same text".to_string(), replay.clone());
+        return false;
+    }
+    true
+}
+
+fn run_c13(args: &Args) -> Report {
+    let mut rep = Report::new("C13", args.shard);
+    let max_len = if args.thorough() { 6 } else { 5 };
+    let mut n = 0u64;
+    for_each_doc(&["a", "\n", "\r\n", "ß", "ℝ", "💣"], max_len, args.shard, args.nshards, |d| {
+        let model0 = Doc::new(d);
+        let positions = model0.all_positions();
+        for (i, &s) in positions.iter().enumerate() {
+            for &e in &positions[i..] {
+                for rtext in REPLACEMENTS {
+                    rep.evaluations += 1;
+                    n += 1;
+                    let mut model = model0.clone();
+                    model.apply(Some((s, e)), rtext).expect("valid by construction");
+                    let (mut vfs, f) = fresh_vfs(d);
+                    let replay = json!({"kind":"edit","doc":d,"range":[[s.line,s.col],[e.line,e.col]],"text":rtext});
+                    let res = panicmon::guard(|| server_apply(&mut vfs, f, Some((s, e)), rtext));
+                    match res {
+                        Outcome::Panicked(i) => {
+                            rep.violate(format!("valid-edit-{}", i.signature()), format!("valid edit panicked at {}", i.location), replay);
+                            continue;
+                        }
+                        Outcome::Ok(Err(e)) => {
+                            rep.violate("valid-edit-rejected", format!("a valid edit was rejected: {e}"), replay);
+                            continue;
+                        }
+                        Outcome::Ok(Ok(())) => {}
+                    }
+                    if check_vfs_state(&mut rep, &vfs, f, &model, &replay, "single-edit") && d.chars().any(|c| c.len_utf8() > 1 || c == '\r') {
+                        rep.nontrivial(fnv(format!("{d}|{s:?}{e:?}|{rtext}").as_bytes()));
+                    }
+                }
+            }
+        }
+    });
+    rep.count(&format!("single_edits[exhaustive: docs len<={max_len} over {{a,LF,CRLF,2B,3B,4B}} x all position pairs x 7 replacements]"), n);
+    rep.exhaustive = Some(true);
+
+    // sequences of edits, full replacements mixed in
+    let mut r = Rng::derive(args.seed, args.shard as u64, 13);
+    let t0 = Instant::now();
+    let mut m = 0u64;
+    while t0.elapsed().as_secs_f64() < args.budget_s {
+        let cap = *r.pick(&[8usize, 32, 128, 2048]);
+        let d = random_doc(&mut r, cap, true);
+        let mut model = Doc::new(d.clone());
+        let (mut vfs, f) = fresh_vfs(&d);
+        let nedits = r.range(2, 20);
+        let mut log = Vec::new();
+        let mut ok = true;
+        for _ in 0..nedits {
+            let full = r.chance(1, 8);
+            let rtext: String = if r.chance(1, 3) { random_doc(&mut r, 12, true) } else { REPLACEMENTS[r.below(REPLACEMENTS.len())].to_string() };
+            let range = if full {
+                None
+            } else {
+                let ps = model.all_positions();
+                let i = r.below(ps.len());
+                let j = i + r.below((ps.len() - i).min(12));
+                Some((ps[i], ps[j]))
+            };
+            log.push(json!({"range": range.map(|(s,e)| json!([[s.line,s.col],[e.line,e.col]])), "text": rtext}));
+            rep.evaluations += 1;
+            model.apply(range, &rtext).expect("valid");
+            let replay = json!({"kind":"edit-sequence","doc":d,"edits":log});
+            match panicmon::guard(|| server_apply(&mut vfs, f, range, &rtext)) {
+                Outcome::Panicked(i) => {
+                    rep.violate(format!("valid-edit-{}", i.signature()), format!("panicked at {}", i.location), replay);
+                    ok = false;
+                    break;
+                }
+                Outcome::Ok(Err(e)) => {
+                    rep.violate("valid-edit-rejected", e, replay);
+                    ok = false;
+                    break;
+                }
+                Outcome::Ok(Ok(())) => {}
+            }
+            if !check_vfs_state(&mut rep, &vfs, f, &model, &replay, "edit-sequence") {
+                ok = false;
+                break;
+            }
+        }
+        if ok {
+            rep.nontrivial(fnv(format!("{d}{log:?}").as_bytes()));
+        }
+        if rep.samples.len() < 4 && m % 53 == 0 {
+            rep.sample(json!({"doc": truncate_str(&d, 80), "edits": log.iter().take(3).collect::<Vec<_>>()}));
+        }
+        m += 1;
+    }
+    rep.count("edit_sequences[random]", m);
+    rep
+}
+
+// ----------------------------------------------------------------------------------
+// C19
+
+fn legend_index(name: &str) -> u32 {
+    verif::semantic_token_legend().iter().position(|n| n == name).map(|i| i as u32).unwrap_or(u32::MAX)
+}
+
+fn tag_type_index(t: HlTag) -> u32 {
+    match t {
+        HlTag::Function => legend_index("function"),
+        HlTag::Module => legend_index("namespace"),
+        HlTag::Constructor => legend_index("type"),
+    }
+}
+
+fn encode_and_check(rep: &mut Report, text: &str, hls: &[HlRange], phase: &str) -> bool {
+    rep.evaluations += 1;
+    let doc = Doc::new(text);
+    let (vfs, f) = fresh_vfs(text);
+    let lm = vfs.line_map_for_file(f);
+    let replay = json!({"kind":"highlights","text":text,"phase":phase,"ranges":hls.iter().map(|h| json!([u32::from(h.range.start()), u32::from(h.range.end()), format!("{:?}", h.tag)])).collect::<Vec<_>>()});
+    let toks = match panicmon::guard(|| verif::to_semantic_tokens(&lm, hls)) {
+        Outcome::Ok(t) => t,
+        Outcome::Panicked(i) => {
+            rep.violate(format!("encoder-{}", i.signature()), format!("to_semantic_tokens panicked at {}", i.location), replay);
+            return false;
+        }
+    };
+    let data: Vec<u32> = toks.iter().flat_map(|t| [t.delta_line, t.delta_start, t.length, t.token_type, t.token_modifiers_bitset]).collect();
+    let legend_len = verif::semantic_token_legend().len() as u32;
+    let decoded = match lspmodel::decode_semantic_tokens(&data, legend_len, &doc) {
+        Ok(d) => d,
+        Err(e) => {
+            rep.violate("stream-violates-lsp-encoding", e, replay);
+            return false;
+        }
+    };
+    let want: Vec<AbsToken> = hls.iter().map(|h| lspmodel::abs_token_for(&doc, h.range.start().into(), h.range.end().into(), tag_type_index(h.tag))).collect();
+    if decoded != want {
+        rep.violate("decoded-tokens-differ", format!("decoded {decoded:?}\nexpected {want:?}"), replay);
+        return false;
+    }
+    true
+}
+
+/// All sorted sets of disjoint identifier-like single-line ranges of `text`.
+fn for_each_range_set(text: &str, f: &mut impl FnMut(&[(usize, usize)])) {
+    let chars: Vec<(usize, char)> = text.char_indices().collect();
+    fn rec(chars: &[(usize, char)], text_len: usize, i: usize, cur: &mut Vec<(usize, usize)>, f: &mut impl FnMut(&[(usize, usize)])) {
+        if i >= chars.len() {
+            f(cur);
+            return;
+        }
+        // skip this char
+        rec(chars, text_len, i + 1, cur, f);
+        // start a range here, if identifier-like
+        let is_word = |c: char| c != ' ' && c != '\n';
+        if is_word(chars[i].1) {
+            let mut j = i;
+            while j < chars.len() && is_word(chars[j].1) {
+                let end = if j + 1 < chars.len() { chars[j + 1].0 } else { text_len };
+                cur.push((chars[i].0, end));
+                rec(chars, text_len, j + 1, cur, f);
+                cur.pop();
+                j += 1;
+            }
+        }
+    }
+    let mut cur = Vec::new();
+    rec(&chars, text.len(), 0, &mut cur, f);
+}
+
+fn run_c19(args: &Args) -> Report {
+    let mut rep = Report::new("C19", args.shard);
+    let tags = [HlTag::Function, HlTag::Constructor, HlTag::Module];
+    let max_len = if args.thorough() { 6 } else { 5 };
+    let mut n = 0u64;
+    for_each_doc(&["a", "b", " ", "\n", "ß", "💣"], max_len, args.shard, args.nshards, |d| {
+        let mut sets = 0usize;
+        for_each_range_set(d, &mut |ranges| {
+            let hls: Vec<HlRange> = ranges
+                .iter()
+                .enumerate()
+                .map(|(i, &(a, b))| HlRange { range: TextRange::new(TextSize::from(a as u32), TextSize::from(b as u32)), tag: tags[(i + sets) % 3] })
+                .collect();
+            let ok = encode_and_check(&mut rep, d, &hls, "exhaustive");
+            if ok && hls.len() >= 2 && d.chars().any(|c| c.len_utf8() > 1) {
+                rep.nontrivial(fnv(format!("{d}|{ranges:?}").as_bytes()));
+            }
+            sets += 1;
+            n += 1;
+        });
+    });
+    rep.count(&format!("encoder_cases[exhaustive: docs len<={max_len} over {{a,b,space,LF,2B,4B}} x all sets of disjoint word ranges]"), n);
+    rep.exhaustive = Some(true);
+
+    // end to end: real highlights of generated programs
+    let mut r = Rng::derive(args.seed, args.shard as u64, 19);
+    let t0 = Instant::now();
+    let mut m = 0u64;
+    let fn_ix = legend_index("function");
+    let ty_ix = legend_index("type");
+    let ns_ix = legend_index("namespace");
+    while t0.elapsed().as_secs_f64() < args.budget_s {
+        let case_seed = r.next_u64();
+        let mut cr = Rng::new(case_seed);
+        let cfg = GenCfg { modules: cr.range(1, 3), max_items: cr.range(3, 7), max_depth: cr.range(1, 3), holes: false, non_core: cr.chance(1, 2), trivia: Trivia::Wild, non_ascii: true };
+        let ws = gen::generate(&mut cr, &cfg);
+        let files = ws.files();
+        let loaded = vh::ws::load_single(&files);
+        let an = loaded.host.snapshot();
+        for (mi, p) in ws.printed.iter().enumerate() {
+            let file = loaded.file_by_path(&ws.path_of(mi)).unwrap();
+            let text = &p.text;
+            let replay = json!({"kind":"workspace","files":files.iter().map(|(p,t)| json!([p,t])).collect::<Vec<_>>(),"module":mi,"case_seed":case_seed.to_string()});
+            let hls = match panicmon::guard(|| an.syntax_highlight(file, None)) {
+                Outcome::Ok(Ok(h)) => h,
+                _ => {
+                    rep.count("highlight_failed(C10's business)", 1);
+                    continue;
+                }
+            };
+            if !encode_and_check(&mut rep, text, &hls, "end-to-end") {
+                continue;
+            }
+            // expected identifiers from the sidecar
+            let doc = Doc::new(text.clone());
+            let mut got: std::collections::BTreeMap<(usize, usize), u32> = std::collections::BTreeMap::new();
+            for h in &hls {
+                got.insert((h.range.start().into(), h.range.end().into()), tag_type_index(h.tag));
+            }
+            let mut judged = 0;
+            for occ in &p.occs {
+                let key = occ.range;
+                let tag = got.get(&key).copied();
+                let site = occ.ident.site;
+                let expect: Option<Option<u32>> = match &occ.ident.bind {
+                    // required tags
+                    Bind::Use { target: Some(d), core: true } if site != "import-value" && site != "import-alias" && site != "import-type" => match ws.decls[ws.canonical(*d)].kind {
+                        SymKind::Function => Some(Some(fn_ix)),
+                        SymKind::Variant => Some(Some(ty_ix)),
+                        SymKind::Constant | SymKind::Adt | SymKind::Alias | SymKind::Field => Some(None),
+                        // locals: function-typed ones are tagged function; the generator does not
+                        // know their type in scoped mode: either is accepted
+                        _ => None,
+                    },
+                    Bind::Decl(d) if ws.decls[*d].kind == SymKind::Variant => Some(Some(ty_ix)),
+                    Bind::Decl(d) if matches!(ws.decls[*d].kind, SymKind::Function | SymKind::Constant | SymKind::Adt | SymKind::Alias) => Some(None),
+                    Bind::Module { core: true, .. } => Some(Some(ns_ix)),
+                    _ => None,
+                };
+                if let Some(want) = expect {
+                    judged += 1;
+                    if tag != want {
+                        let name = |x: Option<u32>| match x {
+                            None => "none".to_string(),
+                            Some(i) => verif::semantic_token_legend().get(i as usize).cloned().unwrap_or_else(|| format!("#{i}")),
+                        };
+                        let kind = match &occ.ident.bind {
+                            Bind::Use { target: Some(d), .. } => format!("{:?}", ws.decls[ws.canonical(*d)].kind),
+                            Bind::Decl(d) => format!("decl-{:?}", ws.decls[*d].kind),
+                            Bind::Module { .. } => "Module".into(),
+                            _ => "?".into(),
+                        };
+                        let mut rp = replay.clone();
+                        rp["occurrence"] = json!({"range":[key.0,key.1],"text":occ.ident.text,"site":site});
+                        rep.violate(
+                            format!("highlight-tag:{kind}:{site}:got={}:want={}", name(tag), name(want)),
+                            format!("`{}` at {:?} ({site}, {kind}) is tagged {} but should be {}", occ.ident.text, key, name(tag), name(want)),
+                            rp,
+                        );
+                    }
+                }
+            }
+            // every highlighted range must be an identifier the printer emitted
+            let emitted: BTreeSet<(usize, usize)> = p.occs.iter().map(|o| o.range).collect();
+            for k in got.keys() {
+                if !emitted.contains(k) {
+                    rep.violate("highlight-on-non-identifier", format!("range {k:?} = {:?} is highlighted but is not an identifier", text.get(k.0..k.1)), replay.clone());
+                }
+            }
+            rep.count("identifiers_judged", judged);
+            // range request == sub-sequence of the full answer intersecting the range
+            for _ in 0..3 {
+                let mut a = cr.below(text.len() + 1);
+                while !text.is_char_boundary(a) {
+                    a -= 1;
+                }
+                let mut b = a + cr.below(text.len() - a + 1);
+                while !text.is_char_boundary(b) {
+                    b -= 1;
+                }
+                if a == b {
+                    continue;
+                }
+                let sub = match panicmon::guard(|| an.syntax_highlight(file, Some(TextRange::new(TextSize::from(a as u32), TextSize::from(b as u32))))) {
+                    Outcome::Ok(Ok(h)) => h,
+                    _ => continue,
+                };
+                let want: Vec<&HlRange> = hls.iter().filter(|h| usize::from(h.range.end()) > a && usize::from(h.range.start()) < b).collect();
+                let same = sub.len() == want.len() && sub.iter().zip(want.iter()).all(|(x, y)| x == *y);
+                rep.evaluations += 1;
+                if !same {
+                    rep.violate(
+                        "range-highlight-not-the-intersecting-subsequence",
+                        format!("range {a}..{b}: got {:?}, full answer restricted {:?}", sub.iter().map(|h| (u32::from(h.range.start()), u32::from(h.range.end()))).collect::<Vec<_>>(), want.iter().map(|h| (u32::from(h.range.start()), u32::from(h.range.end()))).collect::<Vec<_>>()),
+                        replay.clone(),
+                    );
+                } else {
+                    encode_and_check(&mut rep, text, &sub, "end-to-end-range");
+                }
+            }
+            if hls.len() >= 2 && text.chars().any(|c| c.len_utf8() > 1) {
+                rep.nontrivial(fnv(text.as_bytes()));
+            }
+            let _ = doc;
+        }
+        if rep.samples.len() < 6 && m % 29 == 0 {
+            rep.sample(json!({"phase":"end-to-end","case_seed":case_seed.to_string(),"module0":truncate_str(&ws.printed[0].text, 200)}));
+        }
+        m += 1;
+    }
+    rep.count("programs[end-to-end]", m);
+    rep
+}
+
+fn main() {
+    panicmon::install();
+    let args = Args::parse();
+    let a2 = args.clone();
+    let rep = panicmon::on_stack(16 << 20, move || match a2.prop.as_str() {
+        "C13" => run_c13(&a2),
+        "C14" => run_c14(&a2),
+        "C19" => run_c19(&a2),
+        p => panic!("m_text serves C13, C14, C19; not {p}"),
+    });
+    rep.write(&args.out);
+}
